@@ -86,6 +86,9 @@ func genFunction(prog *ssa.Program, cs *Contracts, fn *ssa.Function, fc *FuncCon
 		params = append(params, v)
 		env0[names[i]] = v
 		c.recordParam(p.Name(), v)
+		if iv, ok := v.(IfaceV); ok && isNDIface(p.Type()) && !contains(fc.Nullable, names[i]) {
+			c.emit(fmt.Sprintf("(assert (> %s 0))", iv.Ref.S))
+		}
 	}
 	for _, np := range fc.NaNParams {
 		t, ok := env0[np].(T)
@@ -149,6 +152,7 @@ func genFunction(prog *ssa.Program, cs *Contracts, fn *ssa.Function, fc *FuncCon
 	fr := c.newFrame(fn, fc, params, free, true)
 	fr.old = st0.clone()
 	fr.env0 = env0
+	c.topFrame = fr
 	entryCut := c.nsym
 	// objects allocated from here on are fresh: their ids mention an alloc symbol
 	// created after entryCut
@@ -276,6 +280,9 @@ func (c *Ctx) checkFrame(fr *Frame, env *Env, entryCut int) []string {
 			case 1:
 				continue // fresh object
 			}
+			if w.key.S == "0" {
+				continue // cells of a nil array: nothing there
+			}
 			if allowed[w.heap+"|"+w.key.S] {
 				continue
 			}
@@ -352,6 +359,24 @@ func discharge(o *Obligation, outDir string, timeoutS int) *OblResult {
 		r.Status = "discharged"
 	case !o.ExpectSat && sr.Status == "sat":
 		r.Status = "failed"
+		// prefer a model with short arrays (replayable): re-ask with length bounds
+		var bounds, nonEmpty []string
+		for _, v := range o.Values {
+			if (strings.HasPrefix(v.Name, "nd/") || strings.HasPrefix(v.Name, "sl/")) && strings.HasSuffix(v.Name, "/len") {
+				bounds = append(bounds, fmt.Sprintf("(assert (<= %s 6))", v.Term.S))
+				nonEmpty = append(nonEmpty, fmt.Sprintf("(assert (>= %s 1))", v.Term.S))
+			}
+		}
+		if len(bounds) > 0 {
+			for _, extra := range [][]string{append(append([]string{}, bounds...), nonEmpty...), bounds} {
+				qb := strings.Replace(q, "(check-sat)", strings.Join(extra, "\n")+"\n(check-sat)", 1)
+				if sb := solve(outDir, o.Name+".short", []queryVariant{{"", qb, true}}, timeoutS); sb.Status == "sat" {
+					sr = sb
+					r.Solver, r.Output = sb.Solver, sb.Output
+					break
+				}
+			}
+		}
 		r.Model = map[string]string{}
 		if vals := parseGetValue(sr.Output); len(vals) == len(o.Values) {
 			for i, v := range o.Values {
@@ -473,4 +498,13 @@ func genLemmas(prog *ssa.Program, cs *Contracts, id string) *FuncReport {
 		rep.Obls = append(rep.Obls, c.obls...)
 	}
 	return rep
+}
+
+func contains(xs []string, x string) bool {
+	for _, y := range xs {
+		if y == x {
+			return true
+		}
+	}
+	return false
 }
